@@ -102,3 +102,45 @@ func VerifC14_SSA_Size() {
 	p := vProgram{mem: true, params: []byte{i32}, results: []byte{i32, i32, i32}, body: cat([]byte{0x3f, 0x00}, lg(0), []byte{0x40, 0x00}, []byte{0x3f, 0x00})}
 	vCompare(&p)
 }
+
+// The same families as indexed program lists (used by the machine-level harness).
+func vT2Single(offs []uint32) []vProgram {
+	var out []vProgram
+	for _, k := range vMemKinds {
+		for _, off := range offs {
+			if k.store {
+				out = append(out, vProgram{name: "store", mem: true, params: []byte{i32, k.vt}, body: cat(lg(0), lg(1), []byte{k.op}, memarg(off))})
+			} else {
+				out = append(out, vProgram{name: "load", mem: true, params: []byte{i32}, results: []byte{k.vt}, body: cat(lg(0), []byte{k.op}, memarg(off))})
+			}
+		}
+	}
+	return out
+}
+
+func vT2Reuse(offs []uint32) []vProgram {
+	var out []vProgram
+	for _, o1 := range offs {
+		for _, o2 := range offs {
+			ld1 := cat(lg(0), []byte{0x2d}, memarg(o1))
+			ld2 := cat(lg(0), []byte{0x2d}, memarg(o2))
+			ldw := cat(lg(0), []byte{0x28}, memarg(o2))
+			out = append(out,
+				vProgram{name: "ld-ld", mem: true, params: []byte{i32}, results: []byte{i32}, body: cat(ld1, ld2, []byte{0x6a})},
+				vProgram{name: "narrow-wide", mem: true, params: []byte{i32}, results: []byte{i32}, body: cat(ld1, ldw, []byte{0x6a})},
+				vProgram{name: "ld-call-ld", mem: true, params: []byte{i32, i32}, results: []byte{i32}, body: cat(ld1, lg(1), []byte{0x10, 0x01}, ld2, []byte{0x6a}), extra: []interpreter.VerifFuncSpec{vGrowFn}},
+				vProgram{name: "ld-grow-ld", mem: true, params: []byte{i32, i32}, results: []byte{i32}, body: cat(ld1, lg(1), []byte{0x40, 0x00}, ld2, []byte{0x6a, 0x6a})},
+				vProgram{name: "st-ld", mem: true, params: []byte{i32, i32}, results: []byte{i32}, body: cat(lg(0), lg(1), []byte{0x3a}, memarg(o1), ld2)},
+				vProgram{name: "if-join", mem: true, params: []byte{i32, i32}, results: []byte{i32}, body: cat(lg(1), []byte{0x04, 0x7f}, ld1, []byte{0x05}, ld2, []byte{0x0b}, ld2, []byte{0x6a})},
+			)
+			for _, cb := range offs {
+				l1a := cat(lg(1), []byte{0x2d}, memarg(o1))
+				l1b := cat(lg(1), []byte{0x2d}, memarg(o2))
+				out = append(out, vProgram{name: "const-base-call", mem: true, params: []byte{i32}, locals: []byte{i32}, results: []byte{i32},
+					body: cat(i32const(int32(cb)), []byte{0x21, 0x01}, l1a, lg(0), []byte{0x10, 0x01}, l1b, []byte{0x6a}), extra: []interpreter.VerifFuncSpec{vGrowFn}})
+			}
+		}
+	}
+	out = append(out, vProgram{name: "size-grow-size", mem: true, params: []byte{i32}, results: []byte{i32, i32, i32}, body: cat([]byte{0x3f, 0x00}, lg(0), []byte{0x40, 0x00}, []byte{0x3f, 0x00})})
+	return out
+}
